@@ -292,6 +292,8 @@ pub fn body(p: &Prepared) {
         keep.push(dc);
     }
     let (sctp, _sctp_runner) = SctpTransport::new(dtls, incoming_rx, data_channels, 5000, 5000, None, true, &cfg);
+    // the association's loop is never run here; user data is only accepted on an established association
+    sctp.verif_mark_established();
 
     let mut joins = Vec::new();
     for (t, msgs) in w.senders.iter().enumerate() {
